@@ -517,13 +517,15 @@ def path_obs(rep, rng, kind, params, t, mode, o, stats):
     return (True, L, pk) if t2 == t else (False, 1.0, 0.0)
 
 
-def case_term(kind, params, t, o, pobs, singular=False):
+def case_term(kind, params, t, o, pobs, singular=False, generic=False):
     seg = o['seg']
     (su, u, _), (sn, n, _), (sk, k, _) = o['ut'], o['nm'], o['k']
     # curvature at a zero of the derivative is outside the property ("at regular points"); its
     # fallback works with degree-12 polynomials whose binary64 coefficients are rounded, so the
-    # exact zero tests agree with the model only at t0 = 0 (Horner returns the last coefficient)
-    if singular and t != 0.0: sk = ST_SKIP
+    # exact zero tests agree with the model only at t0 = 0 (Horner returns the last coefficient) and
+    # for dyadic coordinates (for generic doubles the cross-product polynomial of a straight-line
+    # cubic is rounding noise instead of 0 and the implementation raises "Limit does not exist.")
+    if singular and (t != 0.0 or generic): sk = ST_SKIP
     # a non-finite value cannot be written as a float literal: judged at implementation level only
     if su == ST_VAL and not finite(u): su = ST_SKIP
     if sn == ST_VAL and not finite(n): sn = ST_SKIP
@@ -588,7 +590,7 @@ def run(rep, tier, seed, replay=None):
                 stats['coq_skipped_generic_t1'] += 1
                 continue
             is_sing = kind != 'arc' and kind != 'line' and bez_deriv_exact(params, t, 1) == (0, 0)
-            cases.append(case_term(kind, params, t, o, pobs, singular=is_sing))
+            cases.append(case_term(kind, params, t, o, pobs, singular=is_sing, generic=mode.endswith('/generic')))
             meta.append((kind, params, t, mode, o))
         fails, errors = common.run_cases(tmp, 'From SVP Require Import Base.BigF.\n', 'casety', OKDEF, cases,
                                          shard=40, timeout=1500)
